@@ -386,6 +386,23 @@ export function starGraphLayouts() {
 // hand-written collision / unresolvable layouts
 function specialLayouts() {
   const out = [];
+  // resolution corner cases, each a valid TypeScript project with one meaning (precedence of explicit exports over
+  // export *, lexical scope of type parameters vs import types, exports of the file vs locals and nested namespaces,
+  // export lists carrying enums / type+value names / default imports)
+  const P = (parsers) => `export const Parsers = parse.buildParsers<{ ${parsers} }>();`;
+  out.push({ name: "corner:named-reexport-beats-star", files: { "b.ts": 'export type X = "from-b";', "c.ts": 'export type X = "from-c";', "t.ts": 'export * from "./c";\nexport { X } from "./b";', "entry.ts": 'import { X } from "./t";\n' + P("A: X") }, expect: { A: [['"from-b"', true], ['"from-c"', false]] } });
+  out.push({ name: "corner:named-reexport-beats-star-order2", files: { "b.ts": 'export type X = "from-b";', "c.ts": 'export type X = "from-c";', "t.ts": 'export { X } from "./b";\nexport * from "./c";', "entry.ts": 'import { X } from "./t";\n' + P("A: X") }, expect: { A: [['"from-b"', true], ['"from-c"', false]] } });
+  out.push({ name: "corner:local-export-beats-star", files: { "c.ts": 'export type X = "from-c";', "t.ts": 'export * from "./c";\nexport type X = "local";', "entry.ts": 'import { X } from "./t";\n' + P("A: X") }, expect: { A: [['"local"', true], ['"from-c"', false]] } });
+  out.push({ name: "corner:import-type-vs-type-parameter", files: { "x.ts": 'export type T = "x-T";', "entry.ts": 'type Box<T> = { a: T, b: import("./x").T };\n' + P("A: Box<number>") }, expect: { A: [['({"a": 1, "b": "x-T"})', true], ['({"a": 1, "b": 2})', false]] } });
+  out.push({ name: "corner:import-type-qualifier-is-an-export", files: { "a.ts": 'enum E { A = "hidden" }\nenum F { A = "public" }\nexport { F as E };', "entry.ts": P('A: import("./a").E.A') }, expect: { A: [['"public"', true], ['"hidden"', false]] } });
+  out.push({ name: "corner:namespace-members-are-not-file-exports", files: { "a.ts": 'export type X = "top";\nnamespace Inner { export type X = "inner"; }', "entry.ts": 'import { X } from "./a";\n' + P("A: X") }, expect: { A: [['"top"', true], ['"inner"', false]] } });
+  out.push({ name: "corner:typeof-namespace-includes-star-reexports", files: { "a.ts": 'export const A = "a" as const;', "b.ts": 'export * from "./a";\nexport const B = "b" as const;', "entry.ts": 'import * as Ns from "./b";\n' + P("A: typeof Ns") }, expect: { A: [['({"A": "a", "B": "b"})', true], ['({"B": "b"})', false], ['({"A": "x", "B": "b"})', false]] } });
+  out.push({ name: "corner:enum-through-export-list-is-a-value", files: { "a.ts": 'enum E { A = "a" }\nexport { E };', "entry.ts": 'import { E } from "./a";\nconst K = E.A;\n' + P("A: typeof K, B: E") }, expect: { A: [['"a"', true], ['"b"', false]], B: [['"a"', true], ['"b"', false]] } });
+  out.push({ name: "corner:export-list-name-is-type-and-value", files: { "a.ts": 'const X = "v" as const;\ntype X = "t";\nexport { X };', "entry.ts": 'import { X } from "./a";\n' + P("A: typeof X, B: X") }, expect: { A: [['"v"', true], ['"t"', false]], B: [['"t"', true], ['"v"', false]] } });
+  out.push({ name: "corner:default-import-through-export-list", files: { "a.ts": 'type T = "a";\nexport default T;', "b.ts": 'import D from "./a";\nexport { D };', "entry.ts": 'import { D } from "./b";\n' + P("A: D") }, expect: { A: [['"a"', true], ['"b"', false]] } });
+  out.push({ name: "corner:file-names-that-sanitise-alike", files: { "a-b.ts": 'export type X = { p: 1 };', "a_b.ts": 'export type X = { q: 2 };', "entry.ts": 'import { X as X1 } from "./a-b";\nimport { X as X2 } from "./a_b";\n' + P("A: X1, B: X2, C: { l: X1, r: X2 }") }, expect: { A: [['({"p": 1})', true], ['({"q": 2})', false]], B: [['({"q": 2})', true], ['({"p": 1})', false]], C: [['({"l": {"p": 1}, "r": {"q": 2}})', true], ['({"l": {"q": 2}, "r": {"p": 1}})', false]] } });
+  out.push({ name: "corner:dir-and-file-names-that-sanitise-alike", files: { "a/b.ts": 'export type X = { p: 1 };', "a_b.ts": 'export type X = { q: 2 };', "entry.ts": 'import { X as X1 } from "./a/b";\nimport { X as X2 } from "./a_b";\n' + P("A: X1, B: X2, C: { l: X1, r: X2 }") }, expect: { A: [['({"p": 1})', true], ['({"q": 2})', false]], B: [['({"q": 2})', true], ['({"p": 1})', false]], C: [['({"l": {"p": 1}, "r": {"q": 2}})', true], ['({"l": {"q": 2}, "r": {"p": 1}})', false]] } });
+  out.push({ name: "corner:export-default-interface", files: { "a.ts": 'export default interface I { i: 1 }', "entry.ts": 'import I from "./a";\n' + P("A: I") }, expect: { A: [['({"i": 1})', true], ['({"i": 2})', false]] } });
   // same name declared differently in two files, both used
   out.push({
     name: "same-name-two-files",
